@@ -305,6 +305,12 @@ def run(ctx):
                 ctx.sample({'config': cfg, 'fn': name, 'certificate': note})
         ctx.floor('float vector types (%s)' % cfg, len(types), 7)
         ctx.floor('geometry instances (%s)' % cfg, sum(counts.values()), 120)
+        # accuracy of the polynomial arccos behind angle_between / angle_to (interval certificate, rules/approx.py)
+        import approx
+        from harness import Harness
+        Hp = Harness(F)
+        n_c = approx.run_certs(ctx, cfg, F, Hp, ['f32::math::acos_approx_f32']) + approx.run_f64_acos(ctx, cfg, F, Hp)
+        ctx.floor('arccos accuracy certificates (%s)' % cfg, n_c, 2)
         for k, v in sorted(counts.items()):
             ctx.count('%s:%s' % (k, cfg), v)
     ctx.extra['exhaustive'] = True
